@@ -28,7 +28,7 @@ PROPS = {
                     "statement keeps its semicolon token and trailing trivia (pair pushed as returned), in the same position.",
         not_decided=["in-range statements come out as in whole-file formatting (relates two runs)", "stmt_block::format_stmt_block touches only nested blocks (assumed, class C)"],
         assumptions=[]),
-    "C03": dict(units=["tok", "args", "stmt"], bounded=[dict(kind="lib", witnesses="C03_BOUNDED")],
+    "C03": dict(units=["tok", "args", "stmt", "table"], bounded=[dict(kind="lib", witnesses="C03_BOUNDED"), dict(kind="corpus", kinds=["comments"])],
         explanation="token/trivia layer, all real text: format_token keeps a comment's kind, long-bracket level and text (line comments right-trimmed, block comments newline-normalised) and "
                     "creates only whitespace; load_token_trivia (real loop over a Peekable with an inner next(), inductive invariant): the comments of the input trivia come out in order, each only "
                     "rewritten as format_token allows, input whitespace is never copied, and in leading trivia every line comment is followed by a newline; format_token_reference / format_symbol / "
@@ -39,7 +39,7 @@ PROPS = {
                      "a comment dropped inside such a chain is not visible to this unit",
                      "code never ends up inside a comment: only the `line comment is followed by a newline` necessary condition (C01.line_comment_terminated)"],
         assumptions=["TokenReference::new/leading_trivia/trailing_trivia behave as a triple of sequences (class A)"]),
-    "C04": dict(units=["tok", "expr"], bounded=[dict(kind="lib", witnesses="C04_WITNESSES")],
+    "C04": dict(units=["tok", "expr"], bounded=[dict(kind="lib", witnesses="C04_WITNESSES"), dict(kind="corpus", kinds=["literals"])],
         explanation="quote choice (get_quote_to_use against the counting spec), number rewriting limited to inserting `0` before a leading `.` / after `-` "
                     "(real text of the Number arm through string wrappers; the `.expect` cannot fail), long-bracket strings keep level and only get the newline rewrite.",
         not_decided=["escape rewriting of quoted strings (regexes RE / UNNECESSARY_ESCAPES + closure): assumed value-preserving (verif::rewrite_escapes); C04's escape clause is undecided",
@@ -99,7 +99,7 @@ PROPS = {
                      "byte-identical output across carriers is implied only through `same Config`; equality of the library's output for equal Configs is determinism of format_code, not proved"],
         assumptions=["ec4rs Properties::get::<T>() returns the parsed value of key T (wrappers); the string parsers generated by property_choice! are macro output (assumed)"],
         technique="Kani complete enumeration of finite enum domains + Verus contracts on mechanically extracted real functions"),
-    "C07": dict(bounded=[dict(kind="lib", witnesses="C07_BOUNDED")], units=["expr", "block", "ctx", "lib", "tok", "cli_io", "diff", "config", "econf", "sort", "args", "table", "stmt"], kani=["shape"],
+    "C07": dict(bounded=[dict(kind="lib", witnesses="C07_BOUNDED"), dict(kind="corpus", kinds=["panic", "error"])], units=["expr", "block", "ctx", "lib", "tok", "cli_io", "diff", "config", "econf", "sort", "args", "table", "stmt"], kani=["shape"],
         explanation="Totality of the library call, decided per function under contract: inside every function whose real text is verified, each panic!/unreachable!/assert!/expect/unwrap, "
                     "each usize subtraction/addition/multiplication and every recursion or loop (decreases) is an obligation Verus discharges for all inputs (one `.total` obligation per function and "
                     "feature set). format_code returns Err(ParseError) iff the input does not parse and never Ok otherwise; format_ast without verification always returns Ok. "
@@ -118,11 +118,11 @@ PROPS = {
                      "slice::sort_by_key is assumed to be a stable sort by the name (class B wrapper); the leading-trivia swap (comments of the group's first line stay on top) is a hole: comment preservation inside a sorted group is only exercised by the bounded witnesses",
                      "get_expression_kind (what counts as a require / GetService call): string matching, assumed"],
         assumptions=["parsed ASTs carry positions; local names are identifier tokens (parser)"]),
-    "C02": dict(units=["expr", "block", "lib", "tok", "args", "table", "stmt"], bounded=[dict(kind="lib", witnesses="C02_BOUNDED")],
+    "C02": dict(units=["expr", "block", "lib", "tok", "args", "table", "stmt"], bounded=[dict(kind="lib", witnesses="C02_BOUNDED"), dict(kind="corpus", kinds=["tree", "literals"])],
         explanation="expression spine: same obligations as C05 (operator tree, leaves, operators)",
         not_decided=["statement/block/args/token layers are decided in their own units (see runs)"],
         assumptions=[]),
-    "C01": dict(units=["expr", "block", "lib", "tok", "table"], bounded=[dict(kind="lib", witnesses="C01_BOUNDED")],
+    "C01": dict(units=["expr", "block", "lib", "tok", "table"], bounded=[dict(kind="lib", witnesses="C01_BOUNDED"), dict(kind="corpus", kinds=["parse"])],
         explanation="necessary conditions only: `- -x` guard on both paths, right-open expressions never freed under an operator",
         not_decided=["whole-grammar printer correctness"], assumptions=[]),
 }
@@ -241,7 +241,14 @@ PARAM_COMMENT_WITNESSES = [w('local x = function( -- c\n a) end\nfunction f( -- 
 UNOP_COMMENT_WITNESSES = [w('foo(- -- c\n a)\nfoo(not -- d\n a, b)\nlocal x = # -- e\n a\nlocal y = - -- f\n -a\nif not -- g\n a then end\n', oracle="comments", sweep=(10, 120))]
 ARG_PAREN_COMMENT_WITNESSES = [w('foo((a -- c\n))\nfoo(a, (b -- d\n))\nfoo(a + (b -- e\n), d)\nfoo(-(a -- f\n))\na:b -- g\n (d)\nlocal x = a:b -- h\n (d):e()\n', oracle="comments", sweep=(10, 120))]
 OPEN_COMMENT_FINDINGS = []
-OPEN_C03_FINDINGS = [w('local t = { a -- c\n, -- d\n b }\n', oracle="comments"), w('foo(a -- c\n, -- d\n b)\n', oracle="comments"), w('return a -- c\n, -- d\n b\n', oracle="comments")]   # D28, one per formatter
+# D30 (open, a class): a line comment directly behind a keyword / name / symbol inside a statement header or a bracket, where the
+# formatter expects no comment: the token printed next lands inside the comment. One witness per call site that was examined.
+D30_FINDINGS = [w('local -- x\n x = 1\n', oracle="comments"), w('for -- x\n i = 1, 2 do end\n', oracle="comments"), w('for i = 1, -- x\n 2 do end\n', oracle="comments"),
+                w('local function f -- x\n() end\n', oracle="comments"), w('function m.n -- x\n:o() end\n', oracle="comments"), w('repeat a() until -- x\n b\n', oracle="comments"),
+                w('local t = { [ -- x\n 2] = 3 }\n', oracle="comments"), w('goto -- x\n done\n::done::\n', oracle="comments", syntax="lua52"), w('local s = ( -- x\n"x"):rep(3)\n', oracle="comments")]
+D30_TREE_FINDINGS = [w('local x <const> -- x\n = 1\n', oracle="tree", syntax="lua54")]
+OPEN_C03_FINDINGS = [w('local a = { c -- k\n = bar() }\n', oracle="comments"),   # D29
+    w('local t = { a -- c\n, -- d\n b }\n', oracle="comments"), w('foo(a -- c\n, -- d\n b)\n', oracle="comments"), w('return a -- c\n, -- d\n b\n', oracle="comments")]   # D28, one per formatter
 WITNESSES = {
     "C03.condition": COND_COMMENT_WITNESSES, "C02.condition": COND_COMMENT_WITNESSES,
     "C02.stmt": COLLAPSE_WITNESSES, "C01.semicolon": COLLAPSE_WITNESSES[:2] + SEMI_COMMENT_WITNESSES, "C08.block": SEMI_COMMENT_WITNESSES,
@@ -260,14 +267,22 @@ WITNESSES = {
     "C01.double_minus_guard": EXPR_WITNESSES[1:3],
 }
 
-C01_BOUNDED = [x for x in COLLAPSE_WITNESSES if x["oracle"] == "comments"] + BRACKET_WITNESSES + REHANG_WITNESSES[1:] + BINOP_COMMENT_WITNESSES + CALL_COMMENT_WITNESSES[:1] + PARAM_COMMENT_WITNESSES + UNOP_COMMENT_WITNESSES + ARG_PAREN_COMMENT_WITNESSES + OPEN_COMMENT_FINDINGS
-C02_BOUNDED = TYPE_WITNESSES + [x for x in COLLAPSE_WITNESSES if x["oracle"] == "tree"] + CALL_COMMENT_WITNESSES[1:]
+C01_BOUNDED = [x for x in COLLAPSE_WITNESSES if x["oracle"] == "comments"] + BRACKET_WITNESSES + REHANG_WITNESSES[1:] + BINOP_COMMENT_WITNESSES + CALL_COMMENT_WITNESSES[:1] + PARAM_COMMENT_WITNESSES + UNOP_COMMENT_WITNESSES + ARG_PAREN_COMMENT_WITNESSES + OPEN_COMMENT_FINDINGS + D30_FINDINGS
+C02_BOUNDED = TYPE_WITNESSES + [x for x in COLLAPSE_WITNESSES if x["oracle"] == "tree"] + CALL_COMMENT_WITNESSES[1:] + D30_TREE_FINDINGS
 C03_BOUNDED = (TABLE_COMMENT_WITNESSES + COND_COMMENT_WITNESSES + SEMI_COMMENT_WITNESSES + [x for x in COLLAPSE_WITNESSES if x["oracle"] == "comments"][:2]
                + PAREN_COMMENT_WITNESSES + REHANG_WITNESSES[:1] + SORT_COMMENT_WITNESSES + FIELD_COMMENT_WITNESSES + OPEN_C03_FINDINGS)
 def nest(n, open_, close): return "local v = " + "".join(open_ for _ in range(n)) + "1" + "".join(close for _ in range(n)) + "\n"
 TIME_WITNESSES = [dict(w(nest(24, "f({ ", " })"), oracle="parse"), time_limit=20), dict(w(nest(22, "f(", ")"), oracle="parse"), time_limit=20),
                   dict(w(nest(40, "{ ", " }"), oracle="parse"), time_limit=20), dict(w("local v = " + " + ".join(f"a{i}" for i in range(400)) + "\n", oracle="parse"), time_limit=20)]
 C07_BOUNDED = [x for x in COLLAPSE_WITNESSES if x["oracle"] == "tree"] + TIME_WITNESSES    # the replay tool reports a formatter panic as a violation
+
+# corpus sweep (bounded stand-in): /repo/tests/inputs*/ under configurations and widths the snapshot tests do not use
+CORPUS_CONFIGS_QUICK = [dict(), dict(collapse_simple_statement="Always", call_parentheses="None"),
+                        dict(indent_type="Spaces", indent_width="3", line_endings="Windows", quote_style="ForceSingle", space_after_function_names="Always"), dict(sort_requires="true")]
+CORPUS_WIDTHS_QUICK = [100, 50, 25, 10]
+CORPUS_CONFIGS_THOROUGH = CORPUS_CONFIGS_QUICK + [dict(call_parentheses="Input", quote_style="AutoPreferSingle"), dict(call_parentheses="NoSingleTable", collapse_simple_statement="ConditionalOnly"),
+                                                  dict(call_parentheses="NoSingleString", collapse_simple_statement="FunctionOnly", space_after_function_names="Definitions"), dict(indent_width="1", quote_style="ForceDouble", space_after_function_names="Calls")]
+CORPUS_WIDTHS_THOROUGH = [1, 5, 10, 15, 20, 25, 30, 40, 50, 60, 70, 80, 90, 100, 110, 119, 120, 121, 140, 200]
 
 NOT_APPLICABLE = {
     "C06": "two-run relational property over the whole layout engine with a re-lex in between; no per-function contract expresses it (DESIGN.md §9)",
